@@ -224,6 +224,9 @@ def cvc5_check(smt2, timeout_s=30):
 
 # ---------------------------------------------------------------- sympy
 class SymConv:
+    def positive(self, e):
+        return e
+
     real_functions = True      # sinh/cosh as the real functions (needed for derivative lemmas); other calls stay uninterpreted
 
     def __init__(self):
@@ -261,6 +264,9 @@ class SymConv:
             return getattr(sympy, a[0])(c(a[1]))
         if op == "app" and a[0] == "pow" and len(a) == 3 and a[2].op == "num" and a[2].args[0].denominator == 1 and abs(a[2].args[0]) <= 8:
             return c(a[1]) ** int(a[2].args[0])
+        if op == "app" and a[0] == "pow" and len(a) == 3 and a[2].op == "num" and getattr(self, "rational_pow", False):
+            # x^(p/q) on a positive base (callers assert positivity): needed for derivative lemmas only
+            return self.positive(c(a[1])) ** sympy.Rational(a[2].args[0].numerator, a[2].args[0].denominator)
         if op in ("sym", "select", "app", "trunc", "idiv", "imod", "ite", "ptoi"):
             if op == "app" and t.sort == "R" and all(isinstance(x, T) and x.sort in ("R", "I") for x in a[1:]):
                 # uninterpreted real function: arguments in canonical rational-function form, so that
